@@ -14,7 +14,8 @@ LEVEL = "exploration"
 RULE = ("grid: tick period (binary-exact and decimal) x timeout T x repeat N on a two-frame program (exhaustive) plus random "
         "frame sequences (nested groups, timeout / repeat / go on elapsed|recurred, forced re-entry `go me`, framer period 0 or "
         "2 ticks, optionally an auxiliary -- plain or a clone `as mine` / `as k` -- with clock clauses of its own under one of the "
-        "frames); distinct = distinct program text; non-trivial = at least 2 transitions taken and 5 evaluations observed")
+        "frames, and a second use of the same framer: a second clone alive beside the first, or the same original under the "
+        "next frame); distinct = distinct program text; non-trivial = at least 2 transitions taken and 5 evaluations observed")
 META = {"engine": "A floscript", "technique": "runtime trace monitor vs exact-rational clock model",
         "level_text": "At every observed evaluation the recorded elapsed/recurred are compared with store-time/iterations since the last "
                       "outline change, and every timeout/repeat transition tick with the first evaluation at which the exact clock reaches it.",
